@@ -4,8 +4,14 @@ import sys, json, subprocess, collections, os
 prop, n = sys.argv[1], int(sys.argv[2]); seed = sys.argv[3] if len(sys.argv) > 3 else '1'
 procs = [subprocess.Popen(['/verif/bin/vcheck','worker','-property',prop,'-seed',seed,'-from',str(w),'-stride','16','-max',str(n)],stdout=subprocess.PIPE,stderr=subprocess.PIPE,text=True,env=dict(os.environ,TZ='UTC')) for w in range(16)]
 c = collections.Counter(); ex = {}; runs = 0; deaths = []
+import threading
+outs = {}
+def rd(p):
+    outs[p] = p.communicate()
+ths = [threading.Thread(target=rd, args=(p,)) for p in procs]
+[t.start() for t in ths]; [t.join() for t in ths]
 for p in procs:
-    out, err = p.communicate()
+    out, err = outs[p]
     cur = None
     for l in out.splitlines():
         try: d = json.loads(l)
